@@ -1174,10 +1174,16 @@ struct reb_orbit reb_orbit_from_particle_err(double G, struct reb_particle p, st
 
     // move some of the angles into [0,2pi) range
     o.f = reb_mod2pi(o.f);
-    o.l = reb_mod2pi(o.l);
-    o.M = reb_mod2pi(o.M);
     o.theta = reb_mod2pi(o.theta);
     o.omega = reb_mod2pi(o.omega);
+    if (o.e < 1.){
+        o.l = reb_mod2pi(o.l);
+        o.M = reb_mod2pi(o.M);
+    }else{
+        // Unbound orbit: M is not an angle and must not be wrapped.
+        // Keep l = Omega +/- (omega + M) consistent with the wrapped omega so that l can be used to reconstruct the particle.
+        o.l = (o.inc < M_PI/2.) ? o.Omega + o.omega + o.M : o.Omega - o.omega - o.M;
+    }
     
     
     // Cartesian eccentricity and inclination components, see Pal (2009)
